@@ -44,7 +44,7 @@ func buildFormat(ds []Dir) string {
 }
 
 var errorKinds = map[string]bool{"goerr": true, "error": true, "wraperr": true, "errfmt": true, "errsafefmt": true,
-	"errstr": true, "hookerr": true, "nilerror": true, "typednilerr": true, "maperror": true}
+	"errstr": true, "hookerr": true, "nilerror": true, "typednilerr": true, "maperror": true, "ptrerr": true}
 
 func holdsError(v *Val) bool {
 	// "possibly wrapped in Safe/Unsafe": one wrapper, as printArg removes
@@ -203,7 +203,7 @@ func (g *gen) opC15() Op {
 				return Val{K: "typednilerr"}
 			}
 		}
-		switch g.r.Intn(10) {
+		switch g.r.Intn(11) {
 		case 0:
 			return Val{K: "goerr", ID: g.id(), S: Str(g.payload())}
 		case 1:
@@ -233,6 +233,9 @@ func (g *gen) opC15() Op {
 		case 8:
 			// an error of an uncomparable (map) type
 			return g.scripted("maperror", 1)
+		case 9:
+			// a pointer-typed error: identity is the pointer
+			return Val{K: "ptrerr", ID: g.id(), S: Str(g.payload())}
 		default:
 			return g.scripted("hookerr", 1)
 		}
